@@ -110,8 +110,11 @@ func (r *Rule) ResourceName() string {
 }
 
 // IsStatReusable checks whether current rule is "statistically" equal to the given rule.
+// The statistics of a hotspot rule are keyed by the values of the argument the rule selects, so they are
+// only meaningful for a rule that selects the same argument (same ParamIndex and ParamKey).
 func (r *Rule) IsStatReusable(newRule *Rule) bool {
-	return r.Resource == newRule.Resource && r.ControlBehavior == newRule.ControlBehavior && r.ParamsMaxCapacity == newRule.ParamsMaxCapacity && r.DurationInSec == newRule.DurationInSec && r.MetricType == newRule.MetricType
+	return r.Resource == newRule.Resource && r.ControlBehavior == newRule.ControlBehavior && r.ParamsMaxCapacity == newRule.ParamsMaxCapacity && r.DurationInSec == newRule.DurationInSec && r.MetricType == newRule.MetricType &&
+		r.ParamIndex == newRule.ParamIndex && r.ParamKey == newRule.ParamKey
 }
 
 // Equals checks whether current rule is consistent with the given rule.
